@@ -281,10 +281,130 @@ def shard(idx, seed, n, known):
                     return
             raise hyp.Found(sig, what, rep)
 
-    f = hyp.search(gen_case(), body, n, seed * 1000 + idx, shrink_s=40)
+    def body2(case):
+        # the same page twice on one context: what a call leaves behind (an
+        # entry on the expansion path, a memoised result) must not change the
+        # second copy
+        (lib, page), conf = case
+        body(case)
+        if page and (conf["pre_expand"] or not conf["expand_invoke"]
+                     or not conf["expand_parserfns"]):
+            doubled = list(page) + [["T", " SEP "]] + list(page)
+            body(((lib, doubled), conf))
+
+    f = hyp.search(gen_case(), body2, n, seed * 1000 + idx, shrink_s=40)
     if f is not None:
         part.violation(f.signature, f.what, f.replay)
     return part.to_dict()
+
+
+# ------------------------------------------------- identity, full grammar
+KEPT = [
+    ("pfn-off", "{{#if:x|%s}}"),
+    ("pfn-off-first", "{{#ifeq:%s|a|b|c}}"),
+    ("invoke-off", "{{#invoke:echo|f|%s}}"),
+    ("unselected", "{{tb|%s}}"),
+    ("unselected-named", "{{nope|k=%s|z}}"),
+    ("bare", "%s"),
+]
+CONTAINERS = [
+    "%s", "[[%s]]", "[[a|%s]]", "[http://x.org %s]", "{{ta|%s}}",
+    "{{#switch:q|q=%s}}", "'" * 3 + "%s" + "'" * 3, "<span>%s</span>",
+]
+INNER = ["{{tb}}", "{{#if:y|z}}", "{{{q}}}", "[[b]]", "{{#invoke:echo|f|w}}",
+         "[http://y.org v]", "v"]
+NOTHING = dict(pre_expand=True, expand_parserfns=False, expand_invoke=False)
+
+
+def squash(s):
+    return "".join(s.split())
+
+
+def identity_check(ctx, text, kw):
+    from refs import tree as rtree
+
+    ctx.start_page("Test page")
+    try:
+        got = ctx.expand(text, **kw)
+    except Exception as e:
+        return ({"kind": "exception", "stage": "identity", **exc_bucket(e)},
+                exc_text(e))
+    if any(rtree.has_placeholder(ch) for ch in got):
+        return ({"kind": "identity", "class": "placeholder-in-output"},
+                f"expand({text[:150]!r}) = {got[:150]!r}")
+    if squash(got) != squash(text):
+        return ({"kind": "identity", "class": "content"},
+                f"nothing selected but expand({text[:150]!r}) = {got[:150]!r}")
+    return None
+
+
+def identity_shard(idx, nshards, seed, n_random, known):
+    """With nothing selected (pre_expand, no flag, both switches off) every
+    page comes back unchanged up to blanks (a kept parser function is written
+    back with its first argument trimmed), whatever is nested in what."""
+    import itertools
+
+    env.setup()
+    part = Part()
+    ctx = env.new_ctx()
+    lua_modules.install(ctx)
+    for nm in NAMES:
+        ctx.add_page("Template:" + nm, 10, "B{{{1|}}}")
+    buckets = {}
+
+    def one(text, kw, origin):
+        r = identity_check(ctx, text, kw)
+        part.case(h(["identity", text, sorted(kw)]), text.count("{{") >= 2,
+                  classes=["identity:" + origin], sample={"page": text[:200]})
+        if r is None:
+            return
+        sig, what = r
+        if any(sig_matches(k["signature"], sig) for k in known):
+            part.excluded["known"] += 1
+            return
+        key = h(sig)
+        if key not in buckets or len(text) < len(buckets[key][2]["text"]):
+            buckets[key] = (sig, what, {"identity": True, "text": text,
+                                        "kw": {k: (sorted(v) if isinstance(
+                                            v, set) else v)
+                                               for k, v in kw.items()}})
+
+    kws = [NOTHING, dict(NOTHING, templates_to_expand=set()),
+           dict(NOTHING, templates_to_not_expand=set(NAMES))]
+    j = 0
+    for (kn, kept), c1, c2, inner in itertools.product(KEPT, CONTAINERS,
+                                                       CONTAINERS, INNER):
+        j += 1
+        if j % nshards != idx:
+            continue
+        one(kept % (c1 % (c2 % inner)), kws[j // nshards % 3], "enumerated")
+
+    page = exp.seq_strategy(NAMES, 3, False, _full_invoke, max_items=4,
+                            pfn=True, nowiki=False)
+
+    def body(seq):
+        text = exp.render(seq)
+        if "{{{" in text and "|" in text[text.index("{{{"):]:
+            # a page-level {{{p|default}}} is replaced by its default (C04)
+            part.excluded["identity: page-level argument default"] += 1
+            return
+        one(text, NOTHING, "random")
+
+    hyp.search(page, body, n_random, seed * 1000 + 700 + idx, shrink=False)
+    try:
+        ctx.close_db_conn()
+    except Exception:
+        pass
+    for sig, what, rep in buckets.values():
+        part.violation(sig, what, rep)
+    return part.to_dict()
+
+
+def _full_invoke(sub):
+    arg = st.one_of(sub.map(lambda s: ["pos", s]),
+                    st.tuples(st.sampled_from(["k", "1"]), sub).map(
+                        lambda t: ["named", t[0], t[1], ["", "", "", ""]]))
+    return st.lists(arg, max_size=3).map(lambda a: ["INV", "echo", "f", a])
 
 
 def run(run):
@@ -293,7 +413,19 @@ def run(run):
     for d in par.map_shards(shard, [(i, run.seed, n, run.known)
                                     for i in range(shards)], procs):
         run.merge(d)
+    n_id = 150 if run.tier == "quick" else 6000
+    for d in par.map_shards(identity_shard,
+                            [(i, procs, run.seed, n_id, run.known)
+                             for i in range(procs)], procs):
+        run.merge(d)
     run.rule = (
+        "Identity stage: with nothing selected (pre_expand, no flags, "
+        "expand_parserfns / expand_invoke off) the output equals the input up "
+        "to blanks and holds no placeholder character - every kept-call kind x "
+        "two nested containers (links, external links, calls, switch branches, "
+        "bold, elements) x inner construct, and Hypothesis pages from the full "
+        "expansion grammar (parser functions and #invoke with nested calls and "
+        "links in their arguments). " 
         "Hypothesis-generated (DAG template library with inclusion wrappers, "
         "page, configuration) triples: configuration = pre_expand, "
         "templates_to_expand / templates_to_not_expand subsets (or None), "
@@ -302,7 +434,8 @@ def run(run):
         "index). Oracle: R-transclude with the documented selection rule "
         "(output equality; template_fn call log equality = each expanded call "
         "seen exactly once with its final argument map; identity when nothing "
-        "is selected). Non-trivial = proper non-empty selection with both an "
+        "is selected); under a selection every page is also evaluated doubled "
+        "(page SEP page) on the same context. Non-trivial = proper non-empty selection with both an "
         "expanded and a re-emitted call, or a hook that returned a marker; "
         "distinct by hash of the triple."
     )
@@ -317,6 +450,21 @@ def run(run):
 
 
 def replay(run, case):
+    if case.get("identity"):
+        env.setup()
+        ctx = env.new_ctx()
+        lua_modules.install(ctx)
+        for nm in NAMES:
+            ctx.add_page("Template:" + nm, 10, "B{{{1|}}}")
+        kw = {k: (set(v) if isinstance(v, list) else v)
+              for k, v in case["kw"].items()}
+        r = identity_check(ctx, case["text"], kw)
+        ctx.close_db_conn()
+        run.case(h(["identity", case["text"]]), True,
+                 sample={"page": case["text"][:200]})
+        if r is not None:
+            run.violation(r[0], r[1], case)
+        return
     status, detail, it, text = run_case(case["lib"], case["page"], case["conf"])
     run.case(h([case["lib"], case["page"], case["conf"]]), True,
              sample={"page": text[:200]})
